@@ -57,6 +57,8 @@ private:
     friend class ::tst_QXmppStream;
 
     QString m_dataBuffer;
+    // bytes of a UTF-8 character that has not been received completely yet
+    QByteArray m_incompleteCharacter;
     bool m_directTls = false;
     QSslSocket *m_socket = nullptr;
 
